@@ -3,8 +3,11 @@ package c15
 
 import (
 	"bytes"
+	"encoding/hex"
 	"fmt"
+	"os"
 	"sort"
+	"sync/atomic"
 	"testing"
 	"time"
 
@@ -27,20 +30,70 @@ func TestMain(m *testing.M) {
 			"Non-trivial = the input differs from every valid encoding it was derived from and got past the decoder's first validation step (type dispatch / CBOR well-formedness); distinct = distinct (target, input bytes).",
 		Assumptions: []string{"inputs are at most 64 KiB"},
 	})
+	go watchdog()
 	ev.Main(m)
 }
 
 type fataler interface{ Fatalf(string, ...any) }
 
+// A decode that never returns cannot be timed from the inside: the call in flight is published here and a watchdog
+// goroutine (started by TestMain) reports it once it has been running for hangLimit. The limit is far above anything
+// an honest decode of a few kilobytes needs on a loaded machine (they take microseconds); what it catches is a loop
+// that does not terminate. The report is a replay file (TestReplayInput) and exit status 1.
+type inflight struct {
+	Target string `json:"target"`
+	Block  uint64 `json:"block"`
+	Input  string `json:"input_hex"`
+	start  time.Time
+}
+
+const hangLimit = 90 * time.Second
+
+var current atomic.Pointer[inflight]
+var verifyBlock atomic.Uint64
+
+func watchdog() {
+	for {
+		time.Sleep(time.Second)
+		if c := current.Load(); c != nil && time.Since(c.start) > hangLimit {
+			fmt.Printf("--- FAIL: %s has not returned after %v on %d bytes: %s\n", c.Target, hangLimit, len(c.Input)/2, c.Input)
+			ev.WriteReplay("TestReplayInput", c)
+			ev.Flush()
+			os.Exit(1)
+		}
+	}
+}
+
+// TestReplayInput re-runs one recorded input (a hang or a slow decode reported by the watchdog).
+func TestReplayInput(t *testing.T) {
+	var c inflight
+	if !ev.LoadReplay("TestReplayInput", &c) {
+		return
+	}
+	in, _ := hex.DecodeString(c.Input)
+	switch c.Target {
+	case "util.CreateNode":
+		tryCreateNode(t, in)
+	case "wmpt.DeserializeNode":
+		tryDeserializeNode(t, in)
+	case "WeightedMerkleTrie.Deserialize":
+		tryDeserializeTrie(t, in)
+	default:
+		tryVerify(t, c.Block, in)
+	}
+}
+
 // guarded runs fn, converting a panic into a failure and applying the promptness rule.
 func guarded(t fataler, target string, in []byte, fn func() (accepted bool, pastFirst bool)) (accepted, pastFirst bool) {
 	run := func() (d time.Duration) {
 		defer func() {
+			current.Store(nil)
 			if r := recover(); r != nil {
 				t.Fatalf("%s panicked: %v\ninput (%d bytes): %x", target, r, len(in), in)
 			}
 		}()
 		st := time.Now()
+		current.Store(&inflight{Target: target, Block: verifyBlock.Load(), Input: hex.EncodeToString(in), start: st})
 		accepted, pastFirst = fn()
 		return time.Since(st)
 	}
@@ -110,6 +163,7 @@ func tryDeserializeTrie(t fataler, in []byte) (bool, bool) {
 }
 
 func tryVerify(t fataler, block uint64, in []byte) (bool, bool) {
+	verifyBlock.Store(block)
 	return guarded(t, "WeightedMerkleTrie.VerifyBlockProof", in, func() (bool, bool) {
 		var probe wmpt.PersistTrie
 		past := cbor.Unmarshal(in, &probe) == nil
